@@ -78,6 +78,9 @@ class LasAppender:
                 )
             )
 
+        if not points:
+            return
+
         self.points_appender.append_points(points)
         self.header.grow(points)
 
